@@ -31,6 +31,7 @@ type World struct {
 	lemmas    []*Lemma
 	ifaceAlias map[string]string // interface method -> contract name
 	callbackAlias map[string]string // callback key -> callback key whose contract it shares
+	streamAlias []streamAliasDecl // reader types that are windows onto another reader object
 	purePkgs  map[string]bool
 	globals   map[string]*globalInfo // key: ssa global String()
 	gnum      map[string]int
@@ -338,4 +339,9 @@ func (w *World) typeTag(t types.Type) int {
 	n := len(w.typeTags) + 1
 	w.typeTags[k] = n
 	return n
+}
+
+type streamAliasDecl struct {
+	typ  string   // "*isobmff.box"
+	path []string // fields leading to the underlying reader object
 }
